@@ -209,6 +209,14 @@ func (r *Runner) withWatchdog(fn func(ctx context.Context) gate.Event, base gate
 	case ev := <-ch:
 		return ev
 	case <-time.After(to):
+	}
+	// Not back in time: on a heavily loaded machine that is no evidence of a hang. Only a call that stays away
+	// for much longer is reported as one (a real deadlock never comes back); a late return is an ordinary result.
+	select {
+	case ev := <-ch:
+		ev["slow"] = true
+		return ev
+	case <-time.After(9 * to):
 		base["res"] = "hang"
 		return base
 	}
